@@ -24,7 +24,8 @@ Import ListNotations.
 Inductive errclass :=
 | EAuthentication | EBackoff | EMaxPeers | EMaxTries | EUnavailable | EBusy
 | EInvalid | EUnknown | EIllegalData | EInvalidAuthTag | EIncorrectPairingId
-| EInvalidSignature | EParse.
+| EInvalidSignature | EParse
+| EPduStatus.        (* ble.client.PDUStatusError: the HAP-BLE PDU carried a non-success status *)
 
 (* TLV type numbers (protocol/tlv.py) *)
 Definition tMethod : N := 0.
